@@ -129,6 +129,23 @@ def cases(ctx, n, multi_match=True, **tgkw):
             if not partial or rng.random() < 0.5:
                 node.update(h="", t="", p=None, s=None)
         out.append((CORPUS_SCHEMA, cfg, d))
+    # mixes with the parser's positions kept on some nodes only: on the operations but not on their operands (what a
+    # user transformer that yields fresh items for the leaves leaves behind), or the other way round (seeded C07-G)
+    mixes = ["x AND y OR z", "x OR y AND z", "a b AND c", "a OR b c", "f:(x AND y OR z)", "(x OR y AND z) AND w",
+             "NOT (a AND b OR c)", "title:(a b OR c) x", "a AND b OR c AND d", "+(x OR y AND z)", "(a b AND c)^2"]
+    for q in mixes:
+        r, t = parsing.impl_parse(q)
+        if t is None:
+            continue
+        for variant in ("operations", "operands", "random"):
+            import copy as _copy
+            d = _copy.deepcopy(r["ok"])
+            for _, node in common.tree_nodes(d):
+                is_op = node["c"].endswith("Operation")
+                clear = (not is_op) if variant == "operations" else is_op if variant == "operands" else rng.random() < 0.5
+                if clear:
+                    node.update(h="", t="", p=None, s=None)
+            out.append((CORPUS_SCHEMA, {"default_operator": rng.choice(["should", "must"])}, d))
     schema = None
     for i in range(n):
         if schema is None or rng.random() < 0.25:
